@@ -1,6 +1,7 @@
 import Driver.Enc
 import Driver.Crdt
 import Driver.Fault
+import Driver.Events
 
 partial def loop (h : IO.FS.Stream) (out : IO.FS.Stream) (f : List String → String) : IO Unit := do
   let line ← h.getLine
@@ -23,5 +24,6 @@ def main (args : List String) : IO UInt32 := do
   match args with
   | ["enc"] => loop stdin stdout Driver.Enc.step; return 0
   | ["fault"] => loop stdin stdout Driver.Fault.step; return 0
+  | ["events"] => loopS stdin stdout Driver.Events.step ({} : Driver.Events.St); return 0
   | ["crdt"] => loopS stdin stdout Driver.Crdt.step ({} : Driver.Crdt.World); return 0
   | _ => IO.eprintln "usage: drv <engine>"; return 2
